@@ -17,9 +17,11 @@ RULE = ("cases = (a) every PD code of yui-link/resources/links selected by the t
 ASSUME = ["planarity of a PD code is not modelled (the code does not check it either)",
           "Link::load is exercised on the corpus (must equal the generator-side parse), not proved",
           "edge labels are unbounded naturals in the model (usize in the code; no arithmetic is done on labels)",
-          "invariance of writhe / signed crossing numbers under crossing reordering and the braid clauses "
-          "'writhe = exponent sum' (when a strand only passes over) and 'components = cycles' are validated by "
-          "execution on every generated genuine diagram, not proved for all inputs (see level_claimed)"]
+          "the orientation theorems assume that the code admits a consistent orientation (proved for braid closures); "
+          "invariance of writhe / signed crossing numbers under crossing reordering is proved when every component "
+          "passes under somewhere, and for diagrams with a component that only passes over it is validated by execution "
+          "on every generated genuine diagram (it needs planarity, see level_claimed); the braid clauses 'writhe = "
+          "exponent sum' and 'components = cycles' are proved for all inputs"]
 
 
 def nontrivial(case, impl):
